@@ -28,6 +28,7 @@ type c19Scenario struct {
 	StopOffMs  int      `json:"stop_off_ms"` // in_retry: offset into the retry wait after the first failure
 	StopTwice  bool     `json:"stop_twice"`
 	FastTick   bool     `json:"fast_tick"` // 100 us interval: a tick is practically always pending when Stop is called
+	PingMs     int      `json:"ping_ms,omitempty"` // every scripted ping takes this long to answer (a ping that fails by timing out is slow)
 }
 
 const c19IntervalMs = 10
@@ -61,6 +62,9 @@ func c19Child(raw json.RawMessage) any {
 		}
 		if !sc.FastTick || i < 5 {
 			fmt.Printf("PING %d %c\n", time.Since(t0).Milliseconds(), res)
+		}
+		if sc.PingMs > 0 && i < len(flat) {
+			time.Sleep(time.Duration(sc.PingMs) * time.Millisecond)
 		}
 		if i == len(flat)-1 {
 			select {
@@ -310,6 +314,11 @@ func TestC19_RoundsExhaustive(t *testing.T) {
 			continue
 		}
 		scs = append(scs, c19Scenario{Rounds: []string{c19Issued(p)}, Stop: "after_rounds", StopTwice: i%2 == 0, StartTwice: i%3 == 0})
+		// the long rounds again with slow pings (a failing ping usually fails by timing out): the round then lasts longer
+		// than five retry waits, and must still end only by its first success or its fifth failure
+		if strings.HasPrefix(p, "FFF") {
+			scs = append(scs, c19Scenario{Rounds: []string{c19Issued(p)}, Stop: "after_rounds", PingMs: []int{350, 700}[i%2]})
+		}
 	}
 	for i, d := range runParallel(scs) {
 		if d != "" {
@@ -364,6 +373,9 @@ func TestC19_Sequences(t *testing.T) {
 					}
 					sc.Rounds = append(sc.Rounds, strings.Repeat("F", f)+"S")
 				}
+				if !sc.FastTick {
+					sc.PingMs = rapid.SampledFrom([]int{0, 0, 0, 120, 400}).Draw(rt, "pingms")
+				}
 			}
 			scs = append(scs, sc)
 		}
@@ -376,6 +388,9 @@ func TestC19_Sequences(t *testing.T) {
 		fails := 0
 		for _, r := range scs[i].Rounds {
 			fails += strings.Count(r, "F")
+		}
+		if scs[i].PingMs > 0 {
+			record("C19", scs[i], false, "slow_pings")
 		}
 		lab := "stop_" + scs[i].Stop
 		if scs[i].FastTick {
